@@ -653,12 +653,11 @@ func (p *parser) targetSnapshot() *target {
 
 // Split expression to variable and mods list.
 func extractMods(p []byte) ([]byte, []mod) {
-	hasVline := bytes.Contains(p, vline)
-	hasSet := reSet.Match(p)
+	chunks := splitVline(p)
+	hasVline := len(chunks) > 1
 	modNoVar := reFunction.Match(p) && !hasVline
-	if (hasVline && !hasSet) || modNoVar {
+	if hasVline || modNoVar {
 		mods := make([]mod, 0)
-		chunks := bytes.Split(p, vline)
 		var idx = 1
 		if modNoVar {
 			idx = 0
@@ -681,6 +680,37 @@ func extractMods(p []byte) ([]byte, []mod) {
 	} else {
 		return p, nil
 	}
+}
+
+// Split expression by the vertical lines that separate modifiers, i.e. skip the lines inside of sets a.{k1|k2}, argument
+// lists and quoted literals.
+func splitVline(p []byte) [][]byte {
+	var (
+		chunks [][]byte
+		depth  int
+		quote  byte
+		start  int
+	)
+	for i, c := range p {
+		switch {
+		case quote != 0:
+			if c == quote {
+				quote = 0
+			}
+		case c == '"' || c == '\'' || c == '`':
+			quote = c
+		case c == '(' || c == '{':
+			depth++
+		case c == ')' || c == '}':
+			if depth > 0 {
+				depth--
+			}
+		case c == '|' && depth == 0:
+			chunks = append(chunks, p[start:i])
+			start = i + 1
+		}
+	}
+	return append(chunks, p[start:])
 }
 
 // Get list of arguments of modifier or callback, ex:
